@@ -849,6 +849,9 @@ def check_step(st, answer):
     if action == "DescribeStateMachine" and st["kind"] == "call" and resp["status"] != 200 and \
             isinstance(body.get("stateMachineArn"), str) and body["stateMachineArn"] in before["machines"]:
         out.append(("impl-violates-law", LAW_F5_DESCRIBE, {"resp": resp, "arn": body["stateMachineArn"]}, None))
+    if st["info"].get("awaited") and resp["status"] == 200 and st["info"].get("engine_raised"):
+        out.append(("impl-violates-law", "the engine ends a synchronously started execution without raising (its answer is followed by the terminal notification)",
+                    {"resp": resp, "engine_raised": st["info"]["engine_raised"]}, None))
     if st.get("pending_after") and not op.get("publish_fails"):
         # (a start whose publish is refused by the broker — 500 — does leave its entry and its 30-minute timer behind:
         # recorded as a lead in DESIGN §11.2, the broker's refusal is an environment fault outside the property)
